@@ -257,20 +257,64 @@ def r2(ck, rule="C02-R2"):
                                        tah.where(dd[3]) if dd[0] == "stmt" else tah.where())
 
 
+def engine_bounds_at_construction(ck, new, agg_stmt, fields):
+    """{field: True} for prefix_fuzz / suffix_fuzz when the range engine proves, at the statement that builds the HunkView, that the
+    value stored is at most the hunk's prefix_context / suffix_context (closures called on the way are summarised first)."""
+    from .. import ranges
+    prog = ck.prog
+    an = ranges.Analyzer(prog)
+    for cl in prog.closures_of(new):
+        try:
+            an.summaries[cl.id] = an.summarize(cl)
+        except Exception:
+            an.summaries[cl.id] = None
+    out = {}
+
+    def probe(an_, fn, bb, st, state, obligations):
+        if st is not agg_stmt or state.dead:
+            return
+        hop = st["rv"]["ops"][fields.index("hunk")]
+        if hop.get("k") not in ("copy", "move"):
+            return
+        H = an_.cpath(fn, hop["pl"], state)
+        for fz, ctx in (("prefix_fuzz", "prefix_context"), ("suffix_fuzz", "suffix_context")):
+            t = an_.canon(state, an_.term_of(fn, st["rv"]["ops"][fields.index(fz)], state))
+            if t is None:
+                continue
+            cv = ("v", "%s.%s" % (H, ctx))
+            an_.bound_type(state, cv, "usize")
+            out[fz] = bool(an_.prove(state, t[0], t[1], cv, 0, 0))
+    an.stmt_probe = probe
+    try:
+        an.analyze(new)
+    except Exception:
+        return {}
+    return out
+
+
 def r3(ck, rule="C02-R3"):
     prog = ck.prog
-    new = ck.anchor("HunkView::<'a, 'hunk, Line>::new")
-    if new is None:
+    # the one place where a HunkView value is put together (HunkView::new today; Hunk::view would do as well)
+    sites = []
+    for fn_ in prog.fns.values():
+        if fn_.crate != "libpatch" or fn_.impl_trait:      # (derived Clone / Debug impls copy, they do not compute)
+            continue
+        for bb, idx, s in fn_.stmts():
+            if s["k"] == "assign" and s["rv"]["k"] == "agg" and (s["rv"].get("adt") or "").endswith("patch::HunkView") and not fn_.blocks[bb]["cleanup"]:
+                sites.append((fn_, bb, s))
+    if not ck.require(len(sites) == 1, rule, "HunkView built in one place", "%d constructions: %s" % (len(sites), sorted({f.id for f, b, s in sites})),
+                      sites[0][0].where() if sites else None):
         return
-    aggs = [(bb, s) for bb, idx, s in new.stmts() if s["k"] == "assign" and s["rv"]["k"] == "agg" and (s["rv"].get("adt") or "").endswith("patch::HunkView")]
-    if not ck.require(len(aggs) == 1, rule, "HunkView built once in HunkView::new", "%d constructions" % len(aggs), new.where()):
-        return
+    new = sites[0][0]
+    aggs = [(sites[0][1], sites[0][2])]
     bb, s = aggs[0]
     fields = s["rv"]["fields"]
+    proven = engine_bounds_at_construction(ck, new, s, fields)
     for fz, ctx in (("prefix_fuzz", "prefix_context"), ("suffix_fuzz", "suffix_context")):
         e = df.operand_expr(new, s["rv"]["ops"][fields.index(fz)])
         good = df.is_call(e, "<impl usize>::saturating_sub") and isinstance(e[2][0], tuple) and e[2][0][0] == "field" and e[2][0][2] == ctx \
             and isinstance(e[2][0][1], tuple) and e[2][0][1][0] == "param"
+        good = good or proven.get(fz, False)      # whatever the spelling: the range engine shows fuzz part <= context of that hunk
         ck.require(good, rule, "%s <= %s" % (fz, ctx),
                    "%s is computed as %s: it is not bounded by the hunk's %s, so fuzz could trim a changed line" % (fz, df.show(e, 120), ctx),
                    new.where(s), ok_detail="%s = %s.saturating_sub(..) (contract: result <= first operand)" % (fz, ctx))
